@@ -275,7 +275,8 @@ def run_run(mutate=None, prefixes=("C",)):
                 r.running_state.values = {"dt": SymArray((SI(1), k), lambda a, b: sym.ite(b.e < rr.e, dirty.at(a, b), SR(0)))}
                 c.pc.append(z3.And(rr.e >= 0, rr.e <= k.e))
                 return bool(therm_ok)
-            return True
+            # the recorded stage may complete or be cancelled by the user (its contract: False on cancellation, frames so far are on disk)
+            return bool(SB(z3.Bool("recorded_stage_completed")))
         r._run_stage = stage
         res = r.run()
         rec = [x for x in calls if x["save"]]
@@ -287,7 +288,9 @@ def run_run(mutate=None, prefixes=("C",)):
         if has_therm and not rec:
             check("C05.thermalisation.cancel_skips_recorded_stage", z3.And(z3.Not(therm_ok.e), z3.BoolVal(res is False)))
             return
-        check("C05.run.one_recorded_stage", z3.BoolVal(len(rec) == 1 and res is True))
+        # data was generated as soon as the recorded stage started - also when it was cancelled (the caller builds the partial solution from it)
+        check("C05.run.one_recorded_stage", z3.BoolVal(len(rec) == 1))
+        check("C15.run.reports_data_generated_also_when_the_recorded_stage_is_cancelled", z3.BoolVal(res is True))
         x = rec[0]
         g = SI(FreshInt("col"))
         check("C05.thermalisation.recorded_time_restarts_from_zero", z3.And(sym.eq(x["time"], 0), sym.eq(x["step"], 0), sym.eq(x["start"], 0), sym.eq(x["dt"], opts.dt_init)))
